@@ -5,163 +5,178 @@ HERE = os.path.dirname(os.path.abspath(__file__))
 BASELINE = "cd /repo && /venv/bin/python -m pytest -ra -q -p no:cacheprovider --timeout=900 --continue-on-collection-errors"
 
 CLAIMED = {
-    'C16': dict(
-        design='4.16',
-        text='Kernel only (no schedules): parallel.range.__next__ reads and writes the shared index only while holding its lock, returns the old index and stores old+1, or raises StopIteration '
-             'without writing when old >= stop (so successive calls from any process hand out 0..stop-1 exactly once, given mutual exclusion). BOUNDED configurations (two shared variables with '
-             'distinct locks + one private, all subsets per operand; labelled bounded): every statement the code generator _BlockBuilder emits (exec, assign_to, assert_true, raise_, if_) that mentions '
-             'a shared array is nested in `with lock` blocks of all its shared variables, each lock once, and if_ never tests a shared array outside its lock. Ground frame check: every _pyast expression '
-             'class lists in `variables` every child its generated code prints.',
-        note='All interleavings, visibility of shared memory, worker failure/kill (fork/_wait) and the registration of shared arrays are OUTSIDE: this family is silent on concurrency and faults. '
-             'Assumed: Lock gives mutual exclusion, RawValue is sequentially consistent, each shared array has its own lock.',
-        technique='contract-based verification: symbolic execution of the real methods with lock/event ghost state; syntactic frame check on _pyast'),
-    'C18': dict(
-        design='4.18',
-        text='Kernel, complete histories only: symbolic execution of the real closure cache.function.wrapper under assumed pickle/file contracts decides, for each outcome of pickle.load (valid entry, '
-             'old-format entry, EOFError, UnpicklingError, IndexError, old-format failure) and for caching disabled: a hit returns the stored value after replaying its log without calling func; a miss '
-             'calls func exactly once with caching disabled, dumps (value, log) at offset 0 of the locked file and returns the value; the key digest covers the function key and every positional and '
-             'keyword argument (kwargs through sorted blocks); cache.function derives the function key from module, qualname and version.',
-        note='NOT covered, by the nature of the family: kill/crash at an arbitrary byte, truncated pickles (which exception a cut-off stream raises is ASSUMED), partial overwrite of a longer stale entry, '
-             'flock mutual exclusion between processes, Recursion resumption. Key injectivity relies on the C17 argument (SHA-1 idealised).',
-        technique='contract-based deductive verification: symbolic execution of the real closure against external (pickle, file, lock) contracts; outcomes are ground obligations'),
-    'C19': dict(
-        design='4.19',
-        text='Kernel of expression_v2. BOUNDED (<= 4 indices per term, <= 2 incoming summed indices; index characters and axis lengths symbolic; labelled bounded): _Parser._trace keeps exactly '
-             'the indices that occur once, in order, traces each pair once, adds exactly the paired indices to the summed set, and raises ExpressionSyntaxError exactly when an index is used more than twice '
-             'or paired axes differ in length; _merge_summed_indices_same_term is a disjoint union that raises exactly on overlap. Unbounded proofs with loop invariants (any string): '
-             '_Substring.trim_start/trim_end return the maximal range without leading/trailing spaces, _Substring.__getitem__ follows Python slicing, all preserve 0 <= start <= stop <= len(base).',
-        note='That the produced array MEANS the index-notation reading (array backend), precedence, function calls, gradients, jump/mean, bracket-level scanning (_find/split) and expression_v1 are outside. '
-             'Trusted: small symbolic set/str domain, array.trace uninterpreted.',
-        technique='contract-based verification: ast->z3 with loop invariants for the scanners; bounded unrolling with symbolic indices for _trace'),
+    'C01': dict(
+        design='4.1 and 9.5',
+        text='Kernel of value-preserving rewrites. Unbounded deductive proof (all integers incl. infinite ranges): the range-guarded integer rewrites Mod/Minimum/Maximum/InRange/NormDim._simplified, '
+             'Power._simplified (p in {0,1,2}), Multiply unit / minus-one rules, Array._const_uniform, Power._power for integer exponents and for a uniform even constant float exponent, '
+             'Multiply._optimized_for_numpy (x*sign(x) -> |x|), LogicalNot._simplified: a returned replacement evaluates bit-exactly to the original wherever the original is defined. '
+             'BOUNDED (labelled; concrete rank <= 3, symbolic axis lengths, elements an uninterpreted function of the index tuple): the axis-moving swap protocols Ravel._takediag, Transpose._takediag, '
+             'InsertAxis._take, Inflate._take and a few configurations of 20 further _take/_takediag/_unravel/_power/_sign rules, and Multiply._add (<= 3 factors): the replacement has the rank, '
+             'every announced length and every element the protocol promises. The real rule bodies AND the real helpers (_take, _takediag, unravel, ravel, insertaxis, transpose, _inflate, Transpose._end ...) are executed.',
+        note='Relative to C06 (child ranges sound). Termination of the simplification fixed point, the alignment/_inflations/_diagonals branches of Add/Multiply._simplified, most float/complex rules, '
+             'shape properties of node classes and the simplified driver are OUTSIDE. One recorded KNOWN FINDING (Power._power with a non-constant even exponent). Trusted: pyvc executor, elementwise / index-tuple '
+             'denotation of the IR constructors (cross-checked against the real nodes on random arrays, native/axioms_c01.py), numpy meaning of %, minimum, maximum, power, normdim.',
+        technique='contract-based deductive verification: ast->z3 VC generation on the real rule bodies; bounded n-d array model (concrete rank, symbolic lengths) for the swap protocols'),
+    'C04': dict(
+        design='4.4 and 9.5',
+        text='(a) Lean 4 + Mathlib: for 15 Pointwise classes (Cos, Sin, Tan, ArcSin, ArcCos, ArcTan, CosH, SinH, TanH, ArcTanH, Exp, Log, ArcTan2 on the half plane y>0, Minimum, Maximum; 18 table entries) '
+             'a theorem HasDerivAt (numpy meaning read from _compile_expression) (deriv lambda translated mechanically from its AST) is generated from the current source on every run and checked by Lean, '
+             'for all real arguments in the domain of differentiability. (b) BOUNDED (fixed small shapes, all entries symbolic reals; labelled): the real bodies of the array-level rules '
+             'InsertAxis, Transpose, Sum, TakeDiag, Take, Inflate, Diagonalize, Ravel, Unravel, Multiply, Add, Product, Inverse, Determinant, Power (constant exponents incl. 0, and variable exponent), '
+             'Legendre, Pointwise/Holomorphic (chain-rule plumbing with abstract partials), IntToFloat, Sign ._derivative are executed on tensors of symbols; the result must equal, entry by entry, the '
+             'mechanically differentiated (sympy.diff) dense meaning of the node, and the rule must be DEFINED wherever the node is differentiable (catches 0*x**-1); polynomial/rational identities are discharged by z3.',
+        note='Outside: Polyval, Choose, Orthonormal, LoopSum/LoopConcatenate, TransformCoords, WithDerivative targets, the derivative() driver memo, function._Derivative, repeated differentiation beyond what the '
+             'rules compose to; ArcTan2 outside y>0, Sinc. Trusted: Lean kernel + Mathlib, the AST->Lean translator, numpy functions = real functions, floats = reals; for (b) the dense numpy meaning of the IR '
+             'constructors (same reading as C05/C06), sympy.diff and sympy normal forms for entries with log / non-integer powers. Cold start of Lean+Mathlib takes 2-4 min.',
+        technique='contract-based deductive verification: Lean 4 + Mathlib theorems generated from the AST of the deriv tables; symbolic execution of the real _derivative bodies on tensors of symbols with z3 discharging the polynomial identities (bounded shapes)'),
+    'C05': dict(
+        design='4.5 and 9.5',
+        text='Kernel. Unbounded deductive proofs (arrays of any length): UniqueMask.evalf, UniqueInverse.evalf, and numeric.compress_indices (row-pointer form: length+1 entries from 0 to nnz, monotone, '
+             'c[i] <= k < c[i+1] <=> indices[k] == i, each c[i] the searchsorted insertion point; ValueError exactly for out-of-bounds or non-monotone input) with the prefix-sum, zero-run and offset facts '
+             'proved by explicit base+step induction obligations. BOUNDED (rank <= 3): Inflate._assparse flat dofmap position = row-major index; compress_indices additionally by exhaustive native enumeration.',
+        note='Outside unless listed under ext-c05 in DESIGN 9.5: the structural recursion _assparse over the other node classes and "scatter of the listed values reproduces the dense array". '
+             'Trusted: numpy externals as exact axioms (nonzero, repeat with block offsets, out= stores through slice views, cumsum recurrence, injective fancy store), cross-checked in native/axioms.py.',
+        technique='contract-based deductive verification (ast->z3) with induction lemmas as explicit obligations; one bounded native enumeration kept as a cross-check'),
+    'C06': dict(
+        design='4.6',
+        text='Deductive proof, per _intbounds_impl rule in evaluable.py (42 functions: 39 array rules, 2 tuple rules, _ismonotonic): for all child ranges satisfying the '
+             'Array._intbounds invariant (including +-inf) and all child element values inside them, the rule returns normally, its result satisfies the '
+             'invariant, and every element of the node\'s numpy meaning lies inside it. One SMT obligation per feasible path and clause, generated from the '
+             'current AST of /repo on every run and discharged by z3/cvc5 with no bound on values. Whole-DAG soundness follows by structural induction (meta-argument, DESIGN 4.6).',
+        note='Trusted: the pyvc symbolic executor and its model of Python (DESIGN 2.3); numpy meaning of each node operation (table in contracts/C06.py); int64 treated as '
+             'mathematical; lemma L-SUM; external nutils_poly monotonicity; call-site precondition ia,ib>=0 for RavelIndex; the shape/dtype/arguments half of the property is outside '
+             '(shape clauses of the swap protocols are in C01, announced shapes of function arrays in C07, announced argument tables in C13).',
+        technique='contract-based deductive verification: ast->z3 weakest-precondition style VC generation on the real function bodies, sidecar contracts'),
+    'C07': dict(
+        design='4.7 and 9.5',
+        text='Shape calculus of function arrays. Unbounded: function._takeslice selects exactly range(n)[s]; numeric.normdim. BOUNDED (ranks, operand counts, axis arguments and the position of -1 concrete; every length, '
+             'requested length, index value and index count symbolic; labelled): Array.__getitem__ patterns, broadcast_shapes / broadcast_to / broadcast_arrays / _Wrapper.broadcasted_arrays, transpose / swapaxes / '
+             '_Transpose.to_end/from_end, _Concatenate / concatenate / stack, expand_dims / insertaxis / _append_axes / _prepend_axes, unravel, get, take with constant index arrays of rank 1 and 2 (incl. negative axis '
+             'and axis=None), reshape / ravel (incl. "no internal assertion can fail"), typecast_arrays kind-join table: the announced shape (kind) is the one NumPy produces and the call is rejected exactly when NumPy rejects it. '
+             'The real bodies of every nutils function on the call path are executed in line; postconditions are NumPy rules written as spec functions; replays run real nutils against real numpy.',
+        note='Values at sample points, the lowering protocol, einsum/linalg/reduction dispatch, function-array indices are OUTSIDE. Recorded KNOWN FINDING: reshape/ravel with zero-length axes (carve-out: the same pattern with '
+             'all lengths >= 1 fully discharged). Three defects found here were repaired (transpose axes, reshape negative lengths, unravel size check). Trusted: _Wrapper(...)/Array.cast/NEP-18 dispatch as leaf models, divmod in characteristic form.',
+        technique='contract-based deductive verification (ast->z3): unbounded for _takeslice/normdim; bounded structural unrolling with symbolic lengths for the shape rules'),
+    'C08': dict(
+        design='4.8',
+        text='Very narrow kernel: numeric.ext(A) for n = 1, 2, 3 (all cases implemented) and all real entries is orthogonal to every column of A, has squared length det(A^T A) '
+             '(the surface measure) and the orientation det([A|ext]) = +|ext|^2 (n=1,3) / -|ext|^2 (n=2) that the edge transforms rely on; transform.Updim.ext negates it exactly when isflipped. '
+             'Polynomial identities over the reals, z3 nonlinear arithmetic, no bound.',
+        note='Everything else in the property (gradients, div, curl, laplace, Jacobians, divergence theorem, normalisation, independence of parametrisation) '
+             'needs calculus and n-dimensional array semantics and is OUTSIDE: read this claim as "the algebraic core of the edge normal is right". Floats treated as reals. Orientation bookkeeping of '
+             'ScaledUpdim / tensor edges: see DESIGN 9.5 (ext-c10) for what was added.',
+        technique='contract-based deductive verification: ast->z3 (NRA) on the real function bodies'),
+    'C09': dict(
+        design='4.9 and 9.5',
+        text='(a) Tables: every branch of the real points.gauss2 / gauss3 code executed in exact rational arithmetic: weights sum to 1/d!, points inside, every monomial up to the advertised degree integrated exactly '
+             '(|error| <= 5e-15 for the 16-digit constants); gauss1 point count; TensorPoints.weights/.coords; TransformPoints.weights = w*|det|. (b) INDEX PARTITION, unbounded (symbolic nelems, npoints, counts): PART(s) := '
+             'getindex(0..nelems-1) are pairwise disjoint, cover range(npoints) and have the element point counts, stated as a bijection with ghost inverses; proved for _DefaultIndex, _TakeElements (+_offsets), _CustomIndex, _Add, _Mul '
+             '(divmod lemmas proved as obligations), _Zip, _Empty getindex and the constructors that fix nelems/npoints, assuming PART of the operands (modular). (c) the evaluable twins get_evaluable_indices of '
+             '_DefaultIndex/_CustomIndex/_Mul/_Zip/_Empty/_TakeElements and sample._offsets denote the array getindex returns (a 13-constructor denotation table; _Mul/_TakeElements bounded to one point axis).',
+        note='Outside: _Integral.lower (weights x integrand), get_evaluable_weights/get_lower_args, _Zip.__init__ invariant (assumed), ConcatPoints dedup, gauss() eigen-solver, child/mosaic point sets. '
+             'Trusted: exactness 2N-1 of Gauss-Legendre, linearity, IR constructor denotations (cross-checked against the real nodes in native/axioms.py), machine arithmetic as mathematical for the tables.',
+        technique='contract-based verification: real table code executed in exact-rational mode with ground obligations to z3; ast->z3 with ghost inverse functions and modular operand contracts for the index partition'),
     'C10': dict(
         design='4.10',
         text='Very narrow kernel: structured-axis arithmetic of transformseq for all integer axes [i,j) incl. periodic ones: the two interface axes of a DimAxis have equal length and pair each '
              'interior face with its two neighbouring elements exactly once (mod the period); boundaries are exactly the first and last element faces and absent when periodic; refinement doubles '
              'i, j and the period and commutes with taking boundaries; IntAxis.opposite is an involution shifting to the neighbour; slicing keeps the right sub-range.',
         note='Measures, trimming, hierarchical/unstructured topologies, unions, products, connectivity tables and closedness of boundaries are global geometric invariants over histories of '
-             'operations and are OUTSIDE this family; the claim says only that the index arithmetic of structured axes is right.',
+             'operations and are OUTSIDE this family; the claim says only that the index arithmetic of structured axes is right. See DESIGN 9.5 (ext-c10) for what was added.',
         technique='contract-based deductive verification: ast->z3 on the real method bodies (harness contracts for compositions)'),
-    'C08': dict(
-        design='4.8',
-        text='Very narrow kernel: numeric.ext(A) for n = 1, 2, 3 (all cases implemented) and all real entries is orthogonal to every column of A, has squared length det(A^T A) '
-             '(the surface measure) and the orientation det([A|ext]) = +|ext|^2 (n=1,3) / -|ext|^2 (n=2) that the edge transforms rely on; transform.Updim.ext negates it exactly when isflipped. '
-             'Polynomial identities over the reals, z3 nonlinear arithmetic, no bound.',
-        note='Everything else in the property (gradients, div, curl, laplace, Jacobians, divergence theorem, normalisation, orientation parity of tensor edges, independence of parametrisation) '
-             'needs calculus and n-dimensional array semantics and is OUTSIDE: read this claim as "the algebraic core of the edge normal is right". Floats treated as reals.',
-        technique='contract-based deductive verification: ast->z3 (NRA) on the real function bodies'),
-    'C04': dict(
-        design='4.4',
-        text='Kernel only: for 13 Pointwise classes (Cos, Sin, Tan, ArcSin, ArcCos, ArcTan, CosH, SinH, TanH, Exp, Log, Minimum, Maximum; 15 table entries) a Lean 4 theorem '
-             'HasDerivAt (numpy meaning of the class, read from _compile_expression) (the deriv lambda, translated mechanically from its AST) is generated from the current source on every run '
-             'and checked by Lean against Mathlib, for all real arguments in the domain of differentiability. A failed proof is followed by a native central-difference search for a failing input.',
-        note='The chain-rule plumbing through arrays (einsum), Multiply/Inverse/Determinant/Product/Polyval/loops/Inflate/Take derivatives, ArcTan2/ArcTanH/Sinc/Power, derivative shapes and the '
-             'integer zero rule are OUTSIDE. Trusted: Lean kernel + Mathlib, the AST->Lean translator, numpy functions = real functions, floats = reals. Cold start of Lean+Mathlib takes ~4 min.',
-        technique='contract-based deductive verification: Lean 4 + Mathlib theorems generated from the AST of the deriv tables'),
-    'C20': dict(
-        design='4.20',
-        text='Deductive proof of the dimension algebra kernel: each dispatch handler of SI.Quantity (unary, add-like, mul-like, div-like, laplace, sqrt, setitem, pow-like, unary-op, '
-             'binary-op, stack-like, curvature, field, interp, sample; real bodies incl. Quantity.__unpack) returns wrap(prescribed dimension, op(unwrapped values)) for arbitrary rational '
-             'exponent vectors and raises DimensionError exactly when dimensions that must agree differ; Dimension.__mul__/__truediv__/_binop/__pow__ compute exponents pointwise, '
-             'Dimension.wrap returns the bare value exactly for the dimensionless class; the @register dispatch table (read from the AST on every run) equals the expected map of ~95 callables to rules.',
-        note='Wrapped numpy/nutils functions are uninterpreted (a handler is checked to call op once on the unwrapped values). Algebra contracts are BOUNDED to two named bases (labelled). '
-             'Not covered: from_powers naming/interning, unit string parsing/formatting round trip, float values in reference units, __locate/__attribute/evaluate handler bodies.',
-        technique='contract-based deductive verification (ast->z3) of the handler bodies; ground comparison of the decorator table'),
-    'C07': dict(
-        design='4.7',
-        text='Kernel only (shape calculus of indexing). Deductive proof: function._takeslice selects exactly range(n)[s] for every axis length and every present/absent, positive/negative, '
-             'in- or out-of-range start/stop (unit step), never raising; numeric.normdim normalises or raises IndexError exactly when out of range. BOUNDED (rank <= 3, <= 3 basic index items, '
-             'symbolic lengths and slice bounds; labelled bounded): Array.__getitem__ produces NumPy\'s shape for every pattern of int/slice/ellipsis/newaxis and rejects exactly the patterns NumPy rejects.',
-        note='Outside: values at sample points, dtype promotion, arithmetic/reduction/einsum/linalg dispatch, index arrays, broadcasting, concatenate, reshape: the property is decided only for basic indexing shapes. '
-             'Trusted: Range(length)+start / numpy.take meaning, Python slice.indices as the NumPy rule.',
-        technique='contract-based deductive verification (ast->z3) of _takeslice/normdim; bounded pattern enumeration with symbolic lengths for __getitem__'),
-    'C05': dict(
-        design='4.5',
-        text='Kernel only. Deductive proof (arrays of any length) of UniqueMask.evalf (mask[0] true, mask[i] <=> a[i] != a[i-1]) and UniqueInverse.evalf (for a permutation sorter: '
-             'inverse[sorter[k]] = cumsum(mask)[k] - 1, stepwise). numeric.compress_indices is covered only by a BOUNDED stand-in (exhaustive native enumeration, length <= 6, all index '
-             'vectors of len <= 6 over [-1, length]): equals searchsorted, monotone row pointer from 0 to nnz, ValueError exactly for invalid input; labelled bounded, not counted as proved.',
-        note='Outside: the structural recursion _assparse over the node classes and "scatter of the listed values reproduces the dense array" (needs n-dimensional array semantics); '
-             'assparse ravel/unravel loops not built. Trusted: numpy externals (slice stores, not_equal out=, cumsum recurrence, injective fancy store).',
-        technique='contract-based deductive verification (ast->z3) for two functions; bounded exhaustive enumeration stand-in for one'),
-    'C17': dict(
-        design='4.17',
-        text='Deductive proof, SHA-1 idealised as injective, of the encoding kernel of types.nutils_hash: the real function is run twice on symbolic values of one kind and the two outer SHA-1 '
-             'input buffers are compared: equal buffers force equal type names (NUL-terminated prefix) and equal leaf bytes / equal number of children with bytewise-equal child digests '
-             '(bool/int/float/complex, str, bytes, type, None/Ellipsis, tuple/list and __getnewargs__ with loop invariants over the number of items, dict, set/frozenset); for dict and set the '
-             'buffer is the same for every iteration order (only sorted() discharges it). No bound on lengths or item counts.',
-        note='Trusted/assumed: SHA-1, repr and str.encode injective; type names NUL-free and distinct per type; sorted() and set iteration as specified; structural induction over values (meta). '
-             'Not yet under contract: ndarray, seekable-file, MethodType, dataclass branches, Immutable/DataClass/frozendict/frozenmultiset.__nutils_hash__, interning. Pickle round trips, other processes, GC: outside.',
-        technique='contract-based deductive verification: two-run harness over the real function body, byte strings as arrays, loop invariants, ast->z3'),
     'C11': dict(
-        design='4.11',
-        text='Deductive proof of the lookup kernel: for IndexTransforms, MaskedTransforms, ReorderedTransforms, UniformDerivedTransforms and DerivedTransforms a harness composes the REAL '
-             '__getitem__ and index_with_tail bodies and proves index_with_tail(self[i] + tail) == (i, tail) for every valid i, sequence length, mask/permutation/offset table and tail '
-             '(modular: the parent sequence is abstract with the same contract); foreign chains raise ValueError (Index, Masked); negative indices alias; Axis.map/unmap are mutual inverses incl. periodic axes.',
-        note='Trusted: pyvc executor; numpy.searchsorted (with sortedness proved at each call site), argsort-of-permutation and cumsum axioms; L-MONO. Assumed: A-NF (uppermost/canonical keep a '
-             'derived transform at the head of the tail), documented class preconditions, structural induction over nesting. Outside / not built: PlainTransforms, StructuredTransforms, ChainedTransforms, '
-             'canonical/uppermost/promote map preservation, TransformIndex/TransformCoords evaluation, locate(), interfaces.',
-        technique='contract-based deductive verification: harness contracts over two real method bodies, ast->z3 VC generation'),
-    'C13': dict(
-        design='4.13',
-        text='Deductive proof of the specification-handling kernel: function._argument_to_array item lemma for every spelling (dict, pairs, string, sequence of strings) x key kind '
-             '(name, Argument, other) x value kind (name, Argument, array): yields exactly the array\'s own argument paired with the replacement, ValueError exactly for a bad key or a '
-             'shape/dtype mismatch, nothing else escapes; _Replace.__init__ announces (arguments minus replaced names) joined with the replacements\' arguments for every spelling; '
-             '_join_arguments / arguments_for are unions that raise on a clash. Names, shapes and dtypes symbolic.',
-        note='BOUNDED in sizes (labelled in the evidence, not counted as unbounded proof): the array has two arguments, one item per call (iterations are independent: meta-argument). '
-             'Trusted: str.split external, association-list reading of dicts with symbolic keys, eager generators. Outside: that replace/linearize/factor EVALUATE to what the definition says (semantic).',
-        technique='contract-based deductive verification: ast->z3 VC generation on the real function bodies, sidecar contracts'),
+        design='4.11 and 9.5',
+        text='Lookup kernel: for IndexTransforms, MaskedTransforms, ReorderedTransforms, UniformDerivedTransforms, DerivedTransforms and (bounded: 3 items) ChainedTransforms a harness composes the REAL '
+             '__getitem__ and index_with_tail bodies and proves index_with_tail(self[i] + tail) == (i, tail) for every valid i, table and tail (parent abstract with the same contract); Axis.map/unmap mutual inverses. '
+             'Chain rewriting, unbounded (any chain length, loop invariants on the real while/for bodies, composition as a fold in an abstract monoid): transform.canonical / uppermost / promote keep the length, the composed map '
+             'and the outer dimensions, stay in range at every index, and end canonical / uppermost / with the documented head/tail split, GIVEN the item-level swap contract. That swap contract is itself checked (bounded, native '
+             'exhaustive in exact Fraction arithmetic on the real matrices): SimplexEdge/TensorEdge1/TensorEdge2/ScaledUpdim.swapup/swapdown, Updim.swapdown over all adjacent pairs of chains of <= 3 child/edge transforms of line, '
+             'square, cube, triangle, tetrahedron, prism.',
+        note='Trusted: pyvc executor; numpy.searchsorted/argsort/cumsum axioms; L-MONO; monoid fold lemmas (cross-checked on random matrices). Assumed: A-NF, A-DIM, well-formed input chains. Outside / not built: '
+             'PlainTransforms, StructuredTransforms, Transforms.index/contains dispatch, TransformIndex/TransformCoords evaluation, locate(), interfaces (a seeded _asaffine defect is missed for that reason).',
+        technique='contract-based deductive verification: harness contracts over real method bodies, loop invariants with an abstract monoid for chain rewriting (ast->z3, E-matching); bounded native enumeration for the item-level swap tables'),
     'C12': dict(
-        design='4.12',
-        text='Deductive proof of util.merge_index_map (the union-find behind multipatch/merged bases): for every nin, every number and length of merge sets, with four loop '
-             'invariants and a ghost representative array: members of a merge set get equal indices (documented condition), two indices are equal only if related by EVERY '
-             'equivalence containing the merge pairs (no over-merging), labels lie in [0,count) when condensing, the parent chase terminates (decreases clause). No bound.',
-        note='Only this function: concrete basis classes, partition of unity and continuity are numeric and outside; Basis._computed_support is not built. Trusted: pyvc loop rule, '
-             'numpy integer-array store axiom, min() axiom, ghost update text. Failing obligations are replayed by an exhaustive native search over small inputs.',
-        technique='contract-based deductive verification: loop invariants + ghost state, ast->z3 VC generation on the real function body'),
-    'C09': dict(
-        design='4.9',
-        text='Proof by exact computation of the kernel: every branch of the real points.gauss2 / points.gauss3 table code (degrees 0..8 / 0..9, i.e. all branches incl. the '
-             'fall-through) is executed with exact rational arithmetic and the arrays it builds must have weights summing to 1/d!, all points inside the simplex, and integrate every '
-             'monomial up to the advertised degree exactly (|error| <= 5e-15 for the 16-digit decimal constants, 0 for the rational tables); gauss1 requests enough Gauss-Legendre points '
-             'for every degree >= 0 (symbolic). Exhaustive over the finite table; ground obligations discharged by z3.',
-        note='Machine arithmetic treated as mathematical (decimal literals are the rationals they spell). Trusted: exactness 2N-1 of the N-point Gauss-Legendre rule and the eigen-solver gauss() '
-             'itself; linearity (monomials => polynomials). The sample/integral half of the property (index partition, zipping, weights times Jacobian) is outside; not built.',
-        technique='contract-based verification: real table code executed symbolically in exact-rational mode, ground obligations to z3'),
+        design='4.12 and 9.5',
+        text='Dof bookkeeping kernel, unbounded unless noted: util.merge_index_map (union-find; four loop invariants, ghost representatives, no over-merging, termination of the chase); Basis._computed_support (two nested loop '
+             'invariants: every support strictly increasing and e in support[d] <=> d in get_dofs(e), both directions); function._int_or_vec and its _dof/_ielem wrappers (index normalisation, exact IndexError conditions, result = '
+             'strictly increasing union of f over the selected indices); PlainBasis / DiscontBasis (contiguous blocks; get_support exact inverse) / MaskedBasis (same selection on dofs and coefficient rows; get_support) / '
+             'PrunedBasis.f_dofs_coeffs; numeric.invmap; StructuredBasis.f_dofs_coeffs (bounded 1-3 axes: dof = sum_k ((start_k[e_k]+p_k) mod N_k)*stride_k, coefficient rows in the same order).',
+        note='Coefficient tables are tracked as WHICH stored rows are combined, not polynomial values. Basis constructors (class invariants assumed), StructuredBasis.get_support, PrunedBasis.get_support, '
+             '_basis_c0_structured, get_edge_dofs, spline knot logic, partition of unity and continuity are OUTSIDE (a seeded periodic-spline defect is missed for that reason). One defect found here was repaired (_int_or_vec single item).',
+        technique='contract-based deductive verification: loop invariants + ghost state, ast->z3 on the real bodies; denotation table for the evaluable nodes the bases build'),
+    'C13': dict(
+        design='4.13 and 9.5',
+        text='Specification handling and announced metadata. _argument_to_array (every spelling x key kind x value kind), _Replace.__init__, _join_arguments, arguments_for; function.derivative / _Derivative.__init__, '
+             'replace_arguments, linearize, field, dotarg: announced shape, dtype, spaces and ARGUMENT TABLE for every spelling, ValueError exactly for unknown/inconsistent specifications (bounded: f has two arguments, one item per call). '
+             '_util.shallow_replace / evaluable.replace_arguments / zero_all_arguments on five DAG shapes with symbolic identities (bounded): every matching argument replaced by the given object, simultaneously, sharing preserved, '
+             'each node rebuilt at most once, replacements never entered. Argument._compile run-time shape check (unbounded): a value of the wrong shape raises, never broadcasts. argument_degree: one contract per _argument_degree '
+             'rule (17 classes) against an abstract polynomial-degree semantics (an upper bound of the true degree; a dropped independence check is caught). Monomial._derivative ravel arithmetic (rank <= 3).',
+        note='VALUES of replace/linearize/derivative/factor are OUTSIDE (only announced metadata and index arithmetic); evaluable.factor / function.factor themselves are not under contract. '
+             'Trusted: str.split external, association-list reading of dicts with symbolic keys, metadata axioms of *, +, sum, transpose on function arrays (cross-checked natively).',
+        technique='contract-based deductive verification: ast->z3 VC generation on the real function bodies, sidecar contracts; bounded DAG shapes with symbolic identities for the traversal'),
     'C14': dict(
-        design='4.14',
-        text='Deductive proof of the certification logic: Matrix._solver (normal return => zero solution only within tolerance, or the backend result is finite and meets '
-             'atol\'=max(atol, rtol|b|); only MatrixError escapes whatever the backend does), Matrix.solve for all 22 combinations of rhs/lhs0/constrain kind/rconstrain '
-             '(constrained entries equal their prescribed values bit for bit, also in ToleranceNotReached.best; only MatrixError escapes), System.solve (direct, iterative, default '
-             'method: tol>0 and normal return => reported residual norm of the returned arguments <= tol) and _with_solve.solve_withinfo (loop invariant; resnorm <= tol, miniter <= niter <= maxiter). '
-             'IEEE comparison semantics incl. nan; vectors of arbitrary length; all numerics uninterpreted.',
-        note='Trusted: pyvc executor; SFp model of float comparisons; numpy mask/array externals as axioms. Assumed: finite matrix/rhs without overflow for _solver; a method reports the '
-             'true residual norm of its iterate (generators are not executed); 1-D right-hand sides. Outside: correctness of the residual, accuracy, initial-guess independence, line searches, solve_constraints.',
-        technique='contract-based deductive verification: ast->z3 VC generation with loop invariants on the real function bodies, sidecar contracts'),
+        design='4.14 and 9.5',
+        text='Certification logic, IEEE comparison semantics incl. nan, all numerics uninterpreted, vectors of any length. Matrix._solver, Matrix.solve (22 combinations), Matrix.solve_leniently, Matrix.submatrix cache guard, '
+             'System.solve (3 method kinds), _with_solve.solve_withinfo, System.solve_constraints, System.step (bounded retry scenario): normal return => constrained entries exact, residual within tolerance, finite; only solver/matrix errors escape. '
+             'Iteration methods Direct, Newton, ReuseNewton, LinesearchNewton, Minimize, Pseudotime as generators with loop invariants and a per-yield obligation: every yielded (arguments, resnorm) pair is construct(args0, x) and '
+             'norm(R(args0, x)) for the SAME x; line searches exit only by an accepted step or SolverError. NormBased.__call__ control flow. System.deconstruct/construct round trip (bounded <= 2 trials): constrained entries bit for bit, '
+             'free entries from x in order. BOUNDED native grid: NormBased strict clauses on 9^4 finite inputs.',
+        note='Recorded KNOWN FINDING: NormBased is not robust to float cancellation/overflow for finite inputs (351 recorded grid points; any other failing point is a violation). Two defects found here were repaired earlier (nan residual, '
+             'rconstrain dtype) and one now (System.step retry time). Outside: correctness of the residual function, accuracy, initial-guess independence, MedianBased, Arnoldi, termination of line searches.',
+        technique='contract-based deductive verification: ast->z3 with loop invariants, yield hooks and uninterpreted numerics on the real bodies; bounded native grid for the float corner cases of NormBased'),
     'C15': dict(
-        design='4.15',
-        text='Deductive proof of the validation kernel: matrix.assemble_csr returns normally only if exactly the triple it was given is handed to the backend and that triple '
-             'is well-formed CSR (row pointer starts at 0, monotone, ends at nnz; every column index in [0,ncols); column indices strictly increasing within every row), and it '
-             'raises only for input that is not well-formed. Arrays of arbitrary length (quantified obligations over z3 arrays), no bound.',
-        note='Trusted: pyvc executor; numpy externals as axioms (elementwise comparison, basic slices as views, out= write-through, integer-array store in Skolem-witness form, .all()); '
-             'lemmas L-MONO and L-ROW; int64 as mathematical integers. Counterexamples for array obligations are searched on a bounded instance (lengths <= 3) and replayed natively. '
-             'Backends (scipy/MKL), arithmetic, export and pickling are outside.',
-        technique='contract-based deductive verification: ast->z3 VC generation (quantified array obligations) on the real function bodies, sidecar contracts'),
-    'C01': dict(
-        design='4.1',
-        text='Deductive proof of the kernel only: for each range-guarded integer rewrite (Mod/Minimum/Maximum/InRange/NormDim._simplified, Power._simplified p in {0,1,2}, '
-             'Multiply unit / minus-one factor rules, Array._const_uniform): for all child ranges satisfying the invariant and all element values inside them, a returned '
-             'replacement evaluates bit-exactly to the original and is defined exactly when the original is. All paths, all integers incl. infinite ranges; no bound.',
-        note='Relative to C06 (child ranges sound). Termination of the simplification fixed point, the axis-moving swap protocols and all float/complex rules are OUTSIDE: '
-             'the property is decided only for the listed rules. Trusted: pyvc executor, numpy meaning of %, minimum, maximum, power, normdim; elementwise reading of integer IR constructors.',
-        technique='contract-based deductive verification: ast->z3 VC generation on the real _simplified bodies, sidecar contracts'),
-    'C06': dict(
-        design='4.6',
-        text='Deductive proof, per _intbounds_impl rule in evaluable.py (41 functions: 39 array rules, 2 tuple rules): for all child ranges satisfying the '
-             'Array._intbounds invariant (including +-inf) and all child element values inside them, the rule returns normally, its result satisfies the '
-             'invariant, and every element of the node\'s numpy meaning lies inside it. One SMT obligation per feasible path and clause, generated from the '
-             'current AST of /repo on every run and discharged by z3/cvc5 with no bound on values. Whole-DAG soundness follows by structural induction (meta-argument, DESIGN 4.6).',
-        note='Trusted: the pyvc symbolic executor and its model of Python (DESIGN 2.3); numpy meaning of each node operation (table in contracts/C06.py); int64 treated as '
-             'mathematical; lemma L-SUM; external nutils_poly monotonicity; call-site precondition ia,ib>=0 for RavelIndex; the shape/dtype/arguments half of the property is outside.',
-        technique='contract-based deductive verification: ast->z3 weakest-precondition style VC generation on the real function bodies, sidecar contracts'),
+        design='4.15 and 9.5',
+        text='Validation kernel, arrays of any length: matrix.assemble_csr returns normally only if exactly the well-formed CSR triple it was given is handed to the backend and raises only for input that is not well-formed; '
+             'matrix.assemble_coo (by composition with the compress_indices contract proved in C05: accepted exactly for valid COO input, row pointer is the row-pointer form of the row indices); matrix.diag / matrix.empty hand on '
+             'well-formed triples denoting the intended matrix; Matrix.diagonal (loop invariant: diag[r] = stored (r,r) entry or 0); Matrix.rowsupp (supp[r] <=> a stored entry of row r exceeds tol); Matrix.__reduce__ (argument order, ncols).',
+        note='assemble_block_csr (needs a chunk-list value model), the numpy/scipy/MKL backends (2-D array model), arithmetic, export and pickling values are OUTSIDE. Three defects found here were repaired (repeated columns, '
+             'negative columns, 0-row matrices in the numpy backend). Trusted: numpy externals as axioms, L-MONO, L-ROW, int64 as mathematical integers.',
+        technique='contract-based deductive verification: ast->z3 VC generation (quantified array obligations) on the real function bodies, callee contracts for composition'),
+    'C16': dict(
+        design='4.16 and 9.5',
+        text='Sequential kernel (no schedules): parallel.range.__next__ under its lock; parallel._wait / _fork (bounded nprocs = 3: parent waits for every child and raises if any failed, kills children and re-raises when the block raises; '
+             'child runs the block under maxprocs(1) and exits 0/1 without returning) / fork / maxprocs / shempty / shzeros / ctxrange; BOUNDED configurations of the code generator _BlockBuilder (exec, assign_to, assert_true, raise_, if_): '
+             'every emitted statement that mentions a shared array is nested in `with lock` of all its shared variables; ground frame check of _pyast `variables`.',
+        note='All interleavings, visibility of shared memory and kill faults are OUTSIDE: this family is silent on concurrency. Assumed: Lock gives mutual exclusion, RawValue is sequentially consistent. See DESIGN 9.5 (ext-c16) for the '
+             'shared-array registration contract.',
+        technique='contract-based verification: symbolic execution of the real methods with lock/event ghost state and OS externals as contracts; syntactic frame check on _pyast'),
+    'C17': dict(
+        design='4.17 and 9.5',
+        text='Encoding kernel of types.nutils_hash, SHA-1 idealised as injective, two-run harness over the real body, no bound on lengths: leaves, str, bytes, type, None/Ellipsis, tuple/list, __getnewargs__, dict, set/frozenset, ndarray, '
+             'numpy scalars (kinds b/i/u/f/c hash as the equal Python scalar), MethodType, dataclasses (symbolic number of fields), seekable file; Immutable/DataClass/frozendict/frozenmultiset.__nutils_hash__: equal buffers force equal '
+             'type tag and children, order-independent for unordered containers. Interning and canonicalisation (BOUNDED signature shapes, symbolic argument values, real inspect.Signature.bind): argument_canonicalizer, ImmutableMeta.__call__ -> '
+             'Immutable.__new__ -> _new, SingletonMeta._new, Immutable/DataClass.__reduce__, DataClassMeta.__call__ (hit returns the cached object, a miss stores only after successful __post_init__, differently spelled equal calls give the '
+             'same object, pickle round trip rebuilds the canonical args), arraydata.__new__ (integer width canonicalised), _hashable_function_wrapper / hashable_function, System.__nutils_hash__.',
+        note='One recorded KNOWN FINDING (seekable-file position not delimited; pinned by a test). Two defects found here were repaired (unsigned numpy scalars, hashable_function re-wrap). Outside: weak-reference lifetimes / GC, '
+             'pickling in another process, types.lru_cache / frozenarray (need a heap model of numpy objects). Assumed: distinct hashed types have distinct __name__; frozenmultiset counts < 10^4.',
+        technique='contract-based deductive verification: two-run harness over the real function body, byte strings as arrays, loop invariants, ast->z3; bounded call-shape enumeration with the real inspect module for interning'),
+    'C18': dict(
+        design='4.18 and 9.5',
+        text='Complete and cleanly interrupted histories. cache.function.wrapper (closure) under pickle/file contracts: for each load outcome (hit, old format, EOFError, UnpicklingError, IndexError) and caching disabled: a hit returns the '
+             'stored value after replaying its log without calling func; a miss calls func once with caching disabled, dumps (value, log) at offset 0 of the locked file; an exception of func propagates with nothing stored and the entry '
+             'path neither removed nor replaced (frame); a shorter new entry over a longer stale one is read back correctly; key covers function key and all arguments. Recursion.__iter__ (BOUNDED: <= 4 consumed items; cached count, '
+             'length, end position and tail state symbolic): yields equal the uncached sequence, the generator is resumed at most once with the last min(index,length) values, stored exceptions re-raised in place; caching/enable/disable '
+             'contexts nest and restore; _lock_file_fcntl.',
+        note='NOT covered, by the nature of the family: kill at an arbitrary byte while overwriting a longer stale entry, arbitrary corrupt bytes, flock mutual exclusion across processes, concurrent callers. ASSUMED: a truncated entry raises '
+             'one of the caught classes (cross-checked for every truncation point of random entries).',
+        technique='contract-based deductive verification: symbolic execution of the real closures against external (pickle, file, lock) contracts; bounded unrolling of the item loop'),
+    'C19': dict(
+        design='4.19 and 9.5',
+        text='expression_v2. Unbounded (strings of any length, loop invariants): _Substring._find (first level-0 match with bracket depth invariant), _match*, partition, split/isplit (pieces tile the input, no piece contains a level-0 separator), '
+             'partition_scope, trim/trim_start/trim_end, strip_prefix/suffix, __getitem__; 0 <= start <= stop <= len(base) preserved by every construction. BOUNDED structure with symbolic characters, lengths and signs: _Parser.parse_expression, '
+             'parse_fraction, parse_term, parse_power, parse_item against an uninterpreted array backend: indices occurring once stay free in order, twice are summed, more often rejected; terms of a sum need equal index sets and are aligned to '
+             'the first term; numerals select elements; whitespace/bracket rules; ONLY ExpressionSyntaxError escapes for malformed input. _trace, _merge_summed_indices_same_term, _FunctionArrayOps.align (bounded).',
+        note='That the produced array MEANS the index-notation reading (_FunctionArrayOps multiply/trace/get_element, Namespace.__setattr__), number parsing, termination of split and expression_v1 are outside. '
+             'Trusted: small symbolic set/str domain, uninterpreted array backend.',
+        technique='contract-based verification: ast->z3 with loop invariants for the scanners; bounded structural unrolling with symbolic characters for the recursive descent'),
+    'C20': dict(
+        design='4.20 and 9.5',
+        text='Dimension algebra: the 18 Quantity dispatch handlers, Dimension._binop/__mul__/__truediv__/__pow__/wrap/__call__, the @register table; unbounded: Quantity.__array_ufunc__/__array_function__/__nutils_dispatch__ '
+             '(an unregistered numpy function or ufunc method never yields a value), _try_or_noimp, _reverse, the operator partialmethod table, __truediv__, __bool__, __len__, __iter__, dispatch coverage of every @nutils_dispatch function. '
+             'BOUNDED (<= 3 factors; names, numbers, exponents symbolic; token-string model): Dimension.from_powers (canonical, order independent), name decodability via __getattr__, Dimension.create, _split_factors, parse, '
+             'Quantity.__format__ and the parse->format round trip in exact arithmetic, Units.__setattr__ (all 19 SI prefixes, collision refusal); unit._Quantity.__pow__/__imul__, _Bound.__stringly_loads__.',
+        note='Wrapped numpy/nutils functions are uninterpreted. Outside: float rounding and float.__format__ text, unit._Units.parse / create (re-based), from_powers interning lifetimes.',
+        technique='contract-based deductive verification (ast->z3) of the handler bodies; ground comparison of the decorator table; bounded token-string model for names and unit strings'),
 }
 
 NOT_APPLICABLE = {
